@@ -66,6 +66,17 @@ class Universe:
                     c.func.id if isinstance(c.func, ast.Name) else None)
                 if nm:
                     idx.setdefault(nm, []).append(f)
+        # calls made while a module is imported (module level, class
+        # bodies, decorators and defaults of top-level functions)
+        IMPORT = object()
+        for mod in self.repo.modules.values():
+            for c in ast.walk(mod.tree):
+                if not isinstance(c, ast.Call):
+                    continue
+                nm = c.func.attr if isinstance(c.func, ast.Attribute) else (
+                    c.func.id if isinstance(c.func, ast.Name) else None)
+                if nm and self._import_time(c):
+                    idx.setdefault(nm, []).append(IMPORT)
         # names that are also referenced without being called (passed as a
         # value) can run at any time
         loaded = {}
@@ -76,6 +87,13 @@ class Universe:
                     if not (isinstance(par, ast.Call) and par.func is n):
                         loaded.setdefault(n.id, 0)
                         loaded[n.id] += 1
+        # `@helper` on a module-level function is a call made at import
+        for mod in self.repo.modules.values():
+            for st in mod.tree.body:
+                if isinstance(st, (ast.FunctionDef, ast.ClassDef)):
+                    for d in st.decorator_list:
+                        if isinstance(d, ast.Name):
+                            idx.setdefault(d.id, []).append(IMPORT)
         changed = True
         while changed:
             changed = False
@@ -91,12 +109,30 @@ class Universe:
                     continue
                 callers = idx.get(f.name, [])
                 if callers and all(
+                        c is IMPORT or
                         self._base_role(c) in ('construction', 'register')
                         or c.key in self.derived_construction or
                         self._top(c).key in self.derived_construction
                         for c in callers):
                     self.derived_construction.add(f.key)
                     changed = True
+
+    @staticmethod
+    def _import_time(node):
+        """Is `node` evaluated while its module is imported?"""
+        cur = node
+        while cur is not None:
+            par = getattr(cur, '_parent', None)
+            if isinstance(par, (ast.FunctionDef, ast.AsyncFunctionDef)):
+                if any(cur is d for d in par.decorator_list) or \
+                        isinstance(cur, ast.arguments):
+                    cur = par
+                    continue
+                return False
+            if isinstance(par, ast.Lambda):
+                return False
+            cur = par
+        return True
 
     def _is_payload_factory(self, fi):
         """A module-level function that defines a registered payload in its
